@@ -4,6 +4,7 @@ import (
 	"fmt"
 	"go/ast"
 	"go/constant"
+	"go/types"
 	"regexp"
 	"strings"
 
@@ -90,6 +91,114 @@ func c09AliasKinds(c *Ctx, p *Prog, tp *packages.Package) {
 		c.Check(zhKind == enKind, rule, zh+" = "+en, "internal/types/universe_wz.go", "both names are bound to "+enKind,
 			fmt.Sprintf("the Chinese type name %s is documented as %s (%s) but the Chinese universe binds it to %s: a .wz program that uses it computes with a different width or signedness than its .wa counterpart", zh, en, enKind, zhKind))
 	}
-	c.Min(rule, "documented Chinese type names", n, 14)
+	c.Min(rule, "documented Chinese type names", n, 12)
 	_ = strings.TrimSpace
+
+	// ---- universe-visibility-agrees (added after probing: 微整型/短整型 — i8/i16, which the English universe hides
+	// behind the unusable names __wa_i8/__wa_i16 because the back end cannot compile them — were usable in .wz and
+	// ended the compiler with os.Exit; complex64/complex128 had no Chinese name; a bare `Pointer` was predeclared in
+	// .wz only). A basic kind is visible to the user of one syntax exactly when it is visible to the user of the other.
+	const vrule = "universe-visibility-agrees"
+	visible := func(name string) bool {
+		return name != "" && !strings.HasPrefix(name, "__") && !strings.Contains(name, " ")
+	}
+	waVisible := map[string]string{} // kind -> a visible English name
+	for name, kind := range typ {
+		if visible(name) && !strings.HasPrefix(kind, "Untyped") && kind != "Invalid" {
+			waVisible[kind] = name
+		}
+	}
+	for name, kind := range wa {
+		if visible(name) {
+			waVisible[kind] = name
+		} else if waVisible[kind] == typ_name(typ, kind) && !visible(typ_name(typ, kind)) {
+			delete(waVisible, kind)
+		}
+	}
+	// a kind whose every English name is hidden is hidden
+	for kind := range waVisible {
+		any := false
+		for name, k := range typ {
+			if k == kind && visible(name) {
+				any = true
+			}
+		}
+		for name, k := range wa {
+			if k == kind && visible(name) {
+				any = true
+			}
+		}
+		if !any {
+			delete(waVisible, kind)
+		}
+	}
+	nv := 0
+	for zh, kind := range wz {
+		nv++
+		_, ok := waVisible[kind]
+		c.Check(ok, vrule, "Chinese name "+zh+" ("+kind+")", "internal/types/universe_wz.go", "the kind has a usable English name too",
+			fmt.Sprintf("the Chinese universe exports %s for the kind %s, which the English universe hides (its only names begin with `__`): a .wz program can declare a variable of a type the back end does not compile — the compiler ends with os.Exit — where the .wa twin is rejected with `undeclared name`", zh, kind))
+	}
+	wzKinds := map[string]bool{}
+	for _, kind := range wz {
+		wzKinds[kind] = true
+	}
+	for _, kind := range []string{"Complex64", "Complex128"} {
+		if en, ok := waVisible[kind]; ok {
+			nv++
+			c.Check(wzKinds[kind], vrule, "kind "+kind+" has a Chinese name", "internal/types/universe_wz.go", "listed in wzAliases",
+				"the English universe offers "+en+" but wzAliases has no row for "+kind+": the Chinese keyword table lists a name for it that the type checker does not know (`undeclared name`), so a .wa program that uses "+en+" has no .wz twin")
+		}
+	}
+	// the Typ loop of the Chinese universe must not export the unsafe pointer under its English name
+	for _, f := range tp.Syntax {
+		for _, d := range f.Decls {
+			fd, ok := d.(*ast.FuncDecl)
+			if !ok || fd.Name.Name != "wzDefPredeclaredTypes" || fd.Body == nil {
+				continue
+			}
+			skips := false
+			ast.Inspect(fd.Body, func(m ast.Node) bool {
+				if ifs, ok := m.(*ast.IfStmt); ok && strings.Contains(types.ExprString(ifs.Cond), "UnsafePointer") {
+					for _, st := range ifs.Body.List {
+						if b, ok := st.(*ast.BranchStmt); ok && b.Tok.String() == "continue" {
+							skips = true
+						}
+					}
+				}
+				return true
+			})
+			// … or wzDef routes the English name into the unsafe scope
+			routed := false
+			for _, f2 := range tp.Syntax {
+				for _, d2 := range f2.Decls {
+					if fd2, ok := d2.(*ast.FuncDecl); ok && fd2.Name.Name == "wzDef" && fd2.Body != nil {
+						ast.Inspect(fd2.Body, func(m ast.Node) bool {
+							if cc, ok := m.(*ast.CaseClause); ok {
+								for _, e := range cc.List {
+									if strings.HasSuffix(types.ExprString(e), "K_unsafe_Pointer") {
+										routed = true
+									}
+								}
+							}
+							return true
+						})
+					}
+				}
+			}
+			nv++
+			c.Check(skips || routed, vrule, "bare Pointer in the Chinese universe", p.Pos(fd.Pos()), "the unsafe pointer is reachable through the unsafe package only",
+				"wzDefPredeclaredTypes defines every row of Typ in the Chinese universe, the unsafe pointer under its English name `Pointer` included, and wzDef moves only the Chinese unsafe names into the unsafe scope: `全局 p: Pointer` type-checks in .wz without an import (and ends the compiler), while .wa answers `undeclared name: Pointer`")
+		}
+	}
+	c.Min(vrule, "visibility obligations", nv, 18)
+}
+
+func typ_name(typ map[string]string, kind string) string {
+	for name, k := range typ {
+		if k == kind {
+			return name
+		}
+	}
+	return ""
 }
